@@ -9,6 +9,12 @@ import Cdecao.Spec.Score
 import Cdecao.Spec.Hung
 import Cdecao.Spec.Room
 import Cdecao.Spec.Valid
+import Cdecao.Model.Cdedb
+import Cdecao.Model.Simple
+import Cdecao.Model.Cli
+import Cdecao.Model.Rooms
+import Cdecao.Model.Listing
+import Cdecao.Model.Score
 /-! Model driver: one request per line (`TAG<TAB>payload`), one answer line per request.
     The harness (Rust, calling the real code) writes the same cases and diffs the answers. -/
 open Lean
@@ -354,6 +360,286 @@ def handle (line : String) : String :=
       return s!"ok ev={nev}"
 end TR
 
+/-! ## CR: io::cdedb::read on a (tagged) JSON value -/
+namespace CDD
+open JS CD
+
+/-- tagged encoding written by the harness from `serde_json::Value`:
+    null / true / false / {"s":str} / {"u":n} / {"i":-n} / {"f":f64 bits} / {"a":[…]} / {"o":[[k,v],…]} -/
+partial def untag (j : Json) : J :=
+  match j with
+  | .null => .null
+  | .bool b => .bool b
+  | .obj _ =>
+    match j.getObjVal? "s" with
+    | .ok (.str s) => .str s
+    | _ =>
+    match j.getObjVal? "u" with
+    | .ok v => .num (.pos (v.getNat?.toOption.getD 0))
+    | _ =>
+    match j.getObjVal? "i" with
+    | .ok v => .num (.neg ((v.getInt?.toOption.getD 0).natAbs))
+    | _ =>
+    match j.getObjVal? "f" with
+    | .ok v => .num (.flt (v.getNat?.toOption.getD 0).toUInt64)
+    | _ =>
+    match j.getObjVal? "a" with
+    | .ok (.arr l) => .arr (l.toList.map untag)
+    | _ =>
+    match j.getObjVal? "o" with
+    | .ok (.arr l) => .obj (l.toList.map (fun kv =>
+        match kv with
+        | .arr #[.str k, v] => (k, untag v)
+        | _ => ("", .null)))
+    | _ => .null
+  | _ => .null
+
+def numToF32 : Num → Float32
+  | .pos n => (Float.ofNat n).toFloat32
+  | .neg n => (-(Float.ofNat n)).toFloat32
+  | .flt b => (Float.ofBits b).toFloat32
+
+def fvalF32 (v : FVal) (dflt : Float32) : Float32 :=
+  match v with
+  | .dflt => dflt
+  | .ofNum n => numToF32 n
+
+/-- final (factor, offset) of a course as f32 bit patterns: `offset += (instr + att) as f32 * factor` -/
+def courseFloats (c : Course) : Nat × Nat :=
+  let f := fvalF32 c.factor 1.0
+  let o := fvalF32 c.offset 0.0
+  let o' := o + Float32.ofNat (c.invInstr + c.invAtt) * f
+  (f.toBits.toNat, o'.toBits.toNat)
+
+def optNat : Option Nat → Json
+  | none => .null
+  | some n => toJson n
+
+def parseOpts (j : Json) : Opts :=
+  { track := (j.getObjValAs? Nat "track").toOption
+    ignoreCancelled := (j.getObjValAs? Bool "ic").toOption.getD false
+    ignoreAssigned := (j.getObjValAs? Bool "ia").toOption.getD false
+    factorField := (j.getObjValAs? String "rff").toOption
+    offsetField := (j.getObjValAs? String "rof").toOption }
+
+def dumpRead (parts : List Part) (courses : List Course) (amb : Ambience) : Json :=
+  Json.mkObj [
+    ("courses", Json.arr (courses.map (fun c =>
+      let (fb, ob) := courseFloats c
+      Json.arr #[toJson c.dbid, toJson c.name, toJson c.numMin, toJson c.numMax, toJson c.instructors,
+                 toJson fb, toJson ob, toJson c.fixed, toJson c.hidden])).toArray),
+    ("parts", Json.arr (parts.map (fun p =>
+      Json.arr #[toJson p.dbid, toJson p.name, Json.arr (p.choices.map (fun (c, pen) => Json.arr #[toJson c, toJson pen])).toArray])).toArray),
+    ("amb", Json.arr #[toJson amb.eventId, toJson amb.trackId,
+      (match amb.external with
+       | none => Json.null
+       | some (n, pens) => Json.arr #[toJson n, toJson pens]),
+      (match amb.trackName with | none => Json.null | some s => toJson s),
+      optNat amb.ignoredCourses, optNat amb.ignoredRegs])]
+
+def handleCR (payload : String) : String :=
+  match Json.parse payload with
+  | .error e => s!"bad json {e}"
+  | .ok j =>
+    let doc := untag ((j.getObjVal? "doc").toOption.getD Json.null)
+    let o := parseOpts ((j.getObjVal? "opts").toOption.getD Json.null)
+    match CD.read doc o with
+    | .error _ => "ERR"
+    | .ok (parts, courses, amb) => (dumpRead parts courses amb).compress
+
+end CDD
+
+/-! ## CE / CQ: end to end on a CdE export and the import file the real program wrote -/
+namespace CDD
+open JS CD
+
+def instOf (parts : List Part) (courses : List Course) (rooms : Option (List Nat)) : N2.Inst × N2.RoomFns :=
+  let fl := (courses.map courseFloats).toArray
+  let I : N2.Inst :=
+    { cs := courses.map (fun c => ⟨c.numMin, c.numMax, c.fixed, c.instructors⟩)
+      ps := parts.map (fun p => ⟨p.choices.map (fun (c, pen) => ⟨c, pen⟩)⟩)
+      rooms := rooms }
+  let R : N2.RoomFns :=
+    { eff := fun c n => let (fb, ob) := fl.getD c (1065353216, 0)
+                        (Float32.ofBits ob.toUInt32 + Float32.ofBits fb.toUInt32 * Float32.ofNat n).ceil.toUSize.toNat
+      quot := fun c r => let (fb, ob) := fl.getD c (1065353216, 0)
+                         ((Float32.ofNat r - Float32.ofBits ob.toUInt32) / Float32.ofBits fb.toUInt32).floor.toUSize.toNat }
+  (I, R)
+
+/-- the assignment (by participant index) that the import file encodes, and whether the file names
+    only participants / courses of the problem, only the selected track -/
+def decodeImport (parts : List Part) (courses : List Course) (track : Nat) (imp : J) : Bool × List (Option Nat) × List (Nat × Nat) × List (Nat × Bool) :=
+  let regs := ((imp.get "registrations").bind J.asObject).getD []
+  let crs := ((imp.get "courses").bind J.asObject).getD []
+  let t := toString track
+  let regPairs : List (Option (Nat × Nat)) := regs.map (fun (k, v) =>
+    match parseNat k, v.asObject with
+    | some rid, some [("tracks", .obj [(t', .obj [("course_id", cv)])])] =>
+      if t' == t then (cv.asU64).map (fun cid => (rid, cid)) else none
+    | _, _ => none)
+  let crsPairs : List (Option (Nat × Bool)) := crs.map (fun (k, v) =>
+    match parseNat k, v.asObject with
+    | some cid, some (("segments", .obj [(t', .bool b)]) :: _) => if t' == t then some (cid, b) else none
+    | some cid, some (_ :: ("segments", .obj [(t', .bool b)]) :: _) => if t' == t then some (cid, b) else none
+    | _, _ => none)
+  let rp := regPairs.filterMap id
+  let cp := crsPairs.filterMap id
+  let shapeOk := rp.length == regPairs.length && cp.length == crsPairs.length
+  let namesOk := rp.all (fun (rid, cid) => parts.any (fun p => p.dbid == rid) && courses.any (fun c => c.dbid == cid)) &&
+                 cp.all (fun (cid, _) => courses.any (fun c => c.dbid == cid))
+  let a : List (Option Nat) := parts.map (fun p =>
+    match rp.find? (fun x => x.1 == p.dbid) with
+    | some (_, cid) => courses.findIdx? (fun c => c.dbid == cid)
+    | none => none)
+  (shapeOk && namesOk, a, rp, cp)
+
+def sortPairs (l : List (Nat × Nat)) : List (Nat × Nat) := l.mergeSort (fun a b => decide (a.1 ≤ b.1))
+def sortPairsB (l : List (Nat × Bool)) : List (Nat × Bool) := l.mergeSort (fun a b => decide (a.1 ≤ b.1))
+
+def handleCE (payload : String) : String :=
+  match Json.parse payload with
+  | .error e => s!"bad json {e}"
+  | .ok j =>
+    let doc := untag ((j.getObjVal? "doc").toOption.getD Json.null)
+    let imp := untag ((j.getObjVal? "imp").toOption.getD Json.null)
+    let o := parseOpts ((j.getObjVal? "opts").toOption.getD Json.null)
+    let rooms := (j.getObjValAs? (List Nat) "rooms").toOption
+    match CD.read doc o with
+    | .error _ => "read=ERR"
+    | .ok (parts, courses, amb) =>
+      let (fileOk, a, rp, cp) := decodeImport parts courses amb.trackId imp
+      let writeOk := sortPairs (writeRegs parts courses a) == sortPairs rp &&
+                     sortPairsB (writeCourses courses a) == sortPairsB cp
+      let (I, R) := instOf parts courses rooms
+      let av := a.toArray
+      let af : Nat → Option Nat := fun p => av.getD p none
+      let hard := N2.G.hardOKb I af
+      let room := match rooms with
+        | none => true
+        | some r => RSpec.roomOKb I R af r
+      s!"file={if fileOk then "ok" else "BAD"} write={if writeOk then "ok" else "BAD"} hard={hard} room={room}"
+
+/-- quality figures of a CdE run as exact fractions: `sq=num/den oq=num/den score=…` -/
+def handleCQ (payload : String) : String :=
+  match Json.parse payload with
+  | .error e => s!"bad json {e}"
+  | .ok j =>
+    let doc := untag ((j.getObjVal? "doc").toOption.getD Json.null)
+    let imp := untag ((j.getObjVal? "imp").toOption.getD Json.null)
+    let o := parseOpts ((j.getObjVal? "opts").toOption.getD Json.null)
+    match CD.read doc o with
+    | .error _ => "read=ERR"
+    | .ok (parts, courses, amb) =>
+      let (_, a, _, _) := decodeImport parts courses amb.trackId imp
+      let (I, _) := instOf parts courses none
+      let av := a.toArray
+      let af : Nat → Option Nat := fun p => av.getD p none
+      let score := N2.G.scoreOfL I af
+      let (sn, sd) := QM.quality I score
+      let (on, od) := match amb.external with
+        | none => (sn, sd)
+        | some (ei, ep) => QM.combined I score ei ep
+      s!"score={score} sq={sn}/{sd} oq={on}/{od}"
+
+end CDD
+
+/-! ## Q / L / RL / RP: simple-format quality figures, listing, possible rooms -/
+
+open N2 in
+def handleQ (payload : String) : String :=
+  match payload.splitOn "#" with
+  | [cs, ps, rooms, asg] =>
+    let (I, _) := parseInst cs ps rooms
+    let av := parseAssign asg
+    let a : Nat → Option Nat := fun p => (av.getD p none)
+    let score := G.scoreOfL I a
+    let m := QM.theoreticalMax I
+    let (sn, sd) := QM.quality I score
+    let (mn, md) := QM.quality I m
+    s!"score={score} max={m} sq={sn}/{sd} mq={mn}/{md}"
+  | _ => "bad"
+
+def handleL (payload : String) : String :=
+  match Json.parse payload with
+  | .error e => s!"bad json {e}"
+  | .ok j =>
+    let it := (j.getObjValAs? String "inst").toOption.getD ""
+    let asg := (j.getObjValAs? String "a").toOption.getD ""
+    let names := (j.getObjVal? "names").toOption.getD Json.null
+    let cn := (names.getObjValAs? (List String) "c").toOption.getD []
+    let pn := (names.getObjValAs? (List String) "p").toOption.getD []
+    let hn := (names.getObjValAs? (List (List String)) "h").toOption.getD []
+    let rooms := (j.getObjValAs? (List String) "rooms").toOption
+    match it.splitOn "#" with
+    | [cs, ps, rs] =>
+      let (I, _) := parseInst cs ps rs
+      let av := parseAssign asg
+      let a : Nat → Option Nat := fun p => (av.getD p none)
+      (Json.str (LM.render I a cn pn hn rooms)).compress
+    | _ => "bad"
+
+def parseNatCsv (s : String) : List Nat :=
+  ((s.splitOn ",").map (fun x => x.trimAscii.toString)).filterMap (fun x => x.toNat?)
+
+/-- `RL`: the C18 specification on the room sizes the program listed -/
+def handleRL (payload : String) : String :=
+  match Json.parse payload with
+  | .error e => s!"bad json {e}"
+  | .ok j =>
+    let it := (j.getObjValAs? String "inst").toOption.getD ""
+    let asg := (j.getObjValAs? String "a").toOption.getD ""
+    let rooms := (j.getObjValAs? (List Nat) "rooms").toOption.getD []
+    let listed := ((j.getObjValAs? (List String) "listed").toOption.getD []).map parseNatCsv
+    match it.splitOn "#" with
+    | [cs, ps, rs] =>
+      let (I, R) := parseInst cs ps rs
+      let av := parseAssign asg
+      let a : Nat → Option Nat := fun p => (av.getD p none)
+      let sizes := RSpec.sizes I R a
+      s!"sound={RM.specSound sizes rooms listed} nonempty={RM.specNonempty sizes listed}"
+    | _ => "bad"
+
+/-- `RP`: exact model of the possible-rooms listing, given the rank order the real sort produced -/
+def handleRP (payload : String) : String :=
+  match Json.parse payload with
+  | .error e => s!"bad json {e}"
+  | .ok j =>
+    let sizes := (j.getObjValAs? (List Nat) "sizes").toOption.getD []
+    let order := (j.getObjValAs? (List Nat) "order").toOption.getD []
+    let rooms := (j.getObjValAs? (List Nat) "rooms").toOption.getD []
+    if !RM.orderOk sizes order then "order=BAD" else
+    match (j.getObjVal? "kinds").toOption with
+    | some (.arr ks) =>
+      let kinds : List RM.Kind := ks.toList.map (fun k =>
+        { name := (k.getObjValAs? String "name").toOption.getD "", capacity := (k.getObjValAs? Nat "capacity").toOption.getD 0,
+          quantity := (k.getObjValAs? Nat "quantity").toOption.getD 0 })
+      let (rs, sorted) := RM.readKinds kinds
+      let names := RM.kindNames sizes order sorted
+      let poss := RM.possibleByCourse sizes order rs
+      (Json.mkObj [("rooms", toJson rs), ("list", toJson names),
+        ("sound", toJson (RM.specSound sizes rs poss)), ("nonempty", toJson (RM.specNonempty sizes poss))]).compress
+    | _ =>
+      let poss := RM.possibleByCourse sizes order rooms
+      (Json.mkObj [("rooms", toJson rooms), ("list", toJson (RM.sizeList sizes order rooms)),
+        ("sound", toJson (RM.specSound sizes rooms poss)), ("nonempty", toJson (RM.specNonempty sizes poss))]).compress
+
+/-! ## SR / OS: simple-format reader + validation, output stage -/
+
+def handleSR (payload : String) : String :=
+  match Json.parse payload with
+  | .error e => s!"bad json {e}"
+  | .ok j =>
+    let doc := CDD.untag ((j.getObjVal? "doc").toOption.getD Json.null)
+    if SM.accepts doc then "ACCEPT" else "REFUSE"
+
+def handleOS (payload : String) : String :=
+  match Json.parse payload with
+  | .error e => s!"bad json {e}"
+  | .ok j =>
+    let g (k : String) := (j.getObjValAs? Bool k).toOption.getD false
+    let o := CLI.outputStage true (g "print") { requested := true, created := g "created", written := g "written" }
+    s!"exit={o.exit} listing={o.listing}"
+
 /-! ## main loop -/
 
 def dispatch (line : String) : String :=
@@ -368,6 +654,15 @@ def dispatch (line : String) : String :=
     | "B" => handleB payload
     | "S" => handleS payload
     | "T" => TR.handle payload
+    | "CR" => CDD.handleCR payload
+    | "CE" => CDD.handleCE payload
+    | "CQ" => CDD.handleCQ payload
+    | "Q" => handleQ payload
+    | "L" => handleL payload
+    | "RL" => handleRL payload
+    | "RP" => handleRP payload
+    | "SR" => handleSR payload
+    | "OS" => handleOS payload
     | _ => "bad tag"
   | _ => "bad line"
 
